@@ -26,6 +26,13 @@ was FOUND in), several root pipelines one after the other in one process, symlin
 (runner argument / pype pyDir; Path and str), and the SAME step-module name next to several pipeline files, in the
 cwd under py_dir=cwd and in an interpreter sys.path entry — the trail shows WHICH module file served each pipeline.
 
+* names — pipeline NAMES as arbitrary strings: `.yaml` is APPENDED to whatever was asked for (`build.v2` -> `build.v2.yaml`,
+  `p.yaml` -> `p.yaml.yaml`, `a/` -> `a/.yaml`); dots, spaces, non-ascii, `..` / `.` / empty segments, trailing slash; plain, nested,
+  absolute; through get_pipeline_path, pipelinerunner.run, the command line and pype children; with DECOY pipelines named after the
+  truncated stems / the bare name / .yml / another case in the same and earlier search places. Every file records its own path when
+  run. The monitor asks the OS (in the subprocess) whether `dir + '/' + name + '.yaml'` exists for the search places of the property
+  text and expects the first; the model side is lean `Resolve.getPipelinePathNR` (driver op resolve.name).
+
 Both sides are compared on: the chosen file / the trail (module directory | pipeline file), the error text (searched
 places), the directories appended to sys.path. Independent monitors restate the property text in Python.
 A subprocess that does not return is an observation (judged by the monitors), not a crash.
@@ -54,6 +61,8 @@ ASSUMPTIONS = [
     '(paths scenarios, also after os.chdir: it is read against the OS cwd of the moment, not config.cwd)',
     'seq scenarios (warm caches): normalised symlink-free directories (the pipeline-cache key keeps the component list where the code '
     'keeps str(parent)); `..` only in names',
+    'names scenarios: ANY name string the file system can hold (no NUL, components <= 255 bytes) except two leading slashes (pathlib keeps '
+    'them); no `{` (a formatting expression in a pype step) and no leading `-` (an option on the command line); symlink-free tree',
     'the built-in location can only hold the names pypyr ships (donothing, echo, …): /repo is read-only, so '
     '"built-in exists" cases use the name donothing and nested names never exist there',
     'only the truthiness of resolveFromParent is used (a string "False" is truthy, as in get_arguments)',
@@ -1419,6 +1428,353 @@ def judge_subdir_case(env, res, case, files, dirs, impl):
 # entry points
 # ---------------------------------------------------------------------------------------------
 
+
+# ---------------------------------------------------------------------------------------------
+# names scenarios: pipeline NAMES as arbitrary strings ("the first existing <name>.yaml")
+# ---------------------------------------------------------------------------------------------
+
+NAME_LASTS = ['build.v2', 'grand.v1.0', '.hidden', 'name.', 'a.b.c', 'p.yaml', 'p.yml', 'my pipe', 'пайп.в2',
+              'x-1_2.0', 'UP.low', 'vq']
+NAME_FORMS = ['{c}', 'sub/{c}', 'v1.2/{c}']
+NAME_RAW_FORMS = ['./{c}', 'sub//{c}', 'sub/../{c}', '../e/{c}', '{c}/', 'sub/./{c}', 'sub/{c}/']
+NAME_ABS_FORMS = ['/R/e/{c}', '/R/e/v1.2/{c}', '/R/e//{c}', '/R/e/sub/../{c}', '/R/e/{c}/']
+# (via, parent handed to get_pipeline_path, the pipeline file whose pype step asks for the name)
+NAME_VIAS = [('path', None, None), ('path', '/R/e', None), ('run', None, None), ('cli', None, None),
+             ('pype', None, 'e/vroot.yaml'), ('pype', None, 'w/vroot.yaml'), ('pype', None, 'w/pipelines/vroot.yaml')]
+NAME_ABS_VIAS = [('path', None, None), ('path', '/R/e2', None), ('run', None, None), ('cli', None, None),
+                 ('pype', None, 'e2/vroot.yaml')]
+NAME_ALPHABET = 'abxZ019._- éя目'
+
+
+def posix_norm(p):
+    import posixpath
+    return posixpath.normpath(p)
+
+
+def name_decoy_lasts(c):
+    """file names (complete, with their suffix) a look-up of last component `c` must NOT take for `c`.yaml:
+    truncated stems (what is left of the dot positions), the name as it is, .yml, another case"""
+    c = c.rstrip('/')
+    out = []
+    for i, ch in enumerate(c):
+        if ch == '.' and i > 0:
+            out.append(c[:i] + '.yaml')
+    out += [c, c + '.yml']
+    if c.swapcase() != c:
+        out.append(c.swapcase() + '.yaml')
+    if c.endswith('.yaml') or c.endswith('.yml'):
+        out.append(c.rsplit('.', 1)[0] + '.yaml.yml')
+    seen = []
+    for o in out:
+        if o and o not in seen and o != c + '.yaml' and o not in ('.', '..'):
+            seen.append(o)
+    return seen
+
+
+def name_parent_dir(via, parent, vroot):
+    """the directory the look-up gets as its parent (abstract), or None"""
+    if via == 'pype':
+        return '/R/' + vroot.rsplit('/', 1)[0]
+    return parent
+
+
+def name_locs(name, pdir):
+    """(directories a relative name is looked for in, in order — by the property text)"""
+    if name.startswith('/'):
+        return []
+    locs = []
+    if pdir and pdir != CWD:
+        locs.append(pdir[3:])
+    for d in ('w', 'w/pipelines'):
+        if d not in locs:
+            locs.append(d)
+    return locs
+
+
+def name_mkdirs(cand):
+    """directories that must exist so that the OS can walk `cand` (a relative path with `..` / `.` / `//` inside)"""
+    segs = cand.split('/')[:-1]
+    acc, out = [], []
+    for sg in segs:
+        if sg in ('', '.'):
+            continue
+        if sg == '..':
+            out.append('/'.join(acc))
+            acc = acc[:-1]
+        else:
+            acc.append(sg)
+    out.append('/'.join(acc))
+    return [o for o in out if o and not o.startswith('..')]
+
+
+def make_name_case(name, via, parent, vroot, true_locs, decoy_locs, form='str', decoy_pick=None):
+    """true_locs: the search directories (rel. to /R) that hold <name>.yaml; decoy_locs: those that hold the decoys.
+    For an absolute name true_locs is [] or ['abs'] and decoys go next to the absolute file / into the cwd."""
+    files, mk = [], []
+    last = [x for x in name.split('/') if x not in ('', '.')][-1] if name.strip('/.') else name
+    trailing = name.endswith('/')
+    if name.startswith('/'):
+        cand = name[3:].lstrip('/') + '.yaml'
+        mk += name_mkdirs(cand)
+        if 'abs' in true_locs:
+            files.append(posix_norm(cand))
+        # the same name in the places a RELATIVE look-up would visit: "and nowhere else"
+        for d in decoy_locs:
+            if d != 'abs':
+                files.append(posix_norm(f'{d}/{last}.yaml'))
+        ddirs = [posix_norm(cand).rsplit('/', 1)[0]] if 'abs' in decoy_locs else []
+    else:
+        for d in true_locs:
+            cand = f'{d}/{name}.yaml'
+            mk += name_mkdirs(cand)
+            files.append(posix_norm(cand))
+        for d in name_locs(name, name_parent_dir(via, parent, vroot)):
+            mk += name_mkdirs(f'{d}/{name}.yaml')
+        ddirs = [posix_norm(f'{d}/{name}.yaml').rsplit('/', 1)[0] for d in decoy_locs]
+    if trailing:      # 'a/' -> 'a/.yaml': the decoys sit next to the directory `a`, named after it
+        ddirs = [d.rsplit('/', 1)[0] if '/' in d else d for d in ddirs]
+    for dd in ddirs:
+        for dn in name_decoy_lasts(last):
+            if decoy_pick is None or dn in decoy_pick:
+                files.append(f'{dd}/{dn}')
+    files = sorted({f for f in files if f.split('/')[0] in ('w', 'e', 'e2')})
+    # a decoy named exactly like a directory that has to exist cannot be written: the directory wins
+    dirs_needed = {'/'.join(f.split('/')[:k]) for f in files for k in range(1, f.count('/') + 1)} | set(mk)
+    files = [f for f in files if f not in dirs_needed]
+    return {'kind': 'names', 'name': name, 'via': via, 'parent': parent, 'parent_form': form, 'vroot': vroot,
+            'files': files, 'mkdirs': sorted({m for m in mk if m.split('/')[0] in ('w', 'e', 'e2')})}
+
+
+def subsets(xs):
+    for k in range(len(xs) + 1):
+        for sub in itertools.combinations(xs, k):
+            yield list(sub)
+
+
+def decoy_placements(locs, true):
+    """none / every search place up to and including the one the name is first found in / all of them"""
+    first = next((i for i, d in enumerate(locs) if d in true), len(locs) - 1)
+    return [[], locs[:first + 1], list(locs)]
+
+
+def name_cases_directed(rng, quick):
+    core, rest = [], []
+    for c in NAME_LASTS:
+        for fi, form in enumerate(NAME_FORMS + NAME_RAW_FORMS):
+            name = form.format(c=c)
+            raw = fi >= len(NAME_FORMS)
+            for via, parent, vroot in NAME_VIAS:
+                locs = name_locs(name, name_parent_dir(via, parent, vroot))
+                for true in subsets(locs):
+                    for dec in decoy_placements(locs, true):
+                        case = make_name_case(name, via, parent, vroot, true, dec,
+                                              form='path' if (parent and len(true) % 2) else 'str')
+                        is_core = ((fi == 0 or (fi in (1, 2) and c in ('build.v2', 'grand.v1.0')) or
+                                    (raw and c == 'build.v2' and via in ('path', 'run'))) and
+                                   dec == locs and true in ([], locs[-1:]))
+                        (core if is_core else rest).append(case)
+        for form in NAME_ABS_FORMS:
+            name = form.format(c=c)
+            for via, parent, vroot in NAME_ABS_VIAS:
+                for true in ([], ['abs']):
+                    for dec in ([], ['abs', 'w', 'w/pipelines']):
+                        case = make_name_case(name, via, parent, vroot, true, dec)
+                        is_core = form == NAME_ABS_FORMS[0] and dec and via in ('path', 'run', 'pype')
+                        (core if is_core else rest).append(case)
+    def dedupe(cs):
+        seen, out = set(), []
+        for x in cs:
+            k = json.dumps(x, sort_keys=True)
+            if k not in seen:
+                seen.add(k)
+                out.append(x)
+        return out
+    core, rest = dedupe(core), dedupe(rest)
+    if quick:
+        rest = rng.sample(rest, min(len(rest), 600))
+    return core + rest
+
+
+def random_name(rng):
+    def comp():
+        r = rng.random()
+        if r < 0.04:
+            return rng.choice(['..', '.', ''])
+        n = rng.randint(1, 7)
+        t = ''.join(rng.choice(NAME_ALPHABET) for _ in range(n))
+        if rng.random() < 0.5 and '.' not in t:
+            k = rng.randint(0, len(t))
+            t = t[:k] + '.' + t[k:]
+        return t
+    while True:
+        comps = [comp() for _ in range(rng.choice([1, 1, 1, 2, 2, 3]))]
+        name = '/'.join(comps)
+        if rng.random() < 0.06:
+            name += '/'
+        if rng.random() < 0.2:
+            name = '/R/' + rng.choice(['e', 'e2', 'w']) + '/' + name
+        # the command line reads a leading '-' as an option; '{' is a formatting expression in a pype step
+        if name.startswith('-') or not name.strip('/. ') or len(name.encode()) > 120 or \
+                (name.startswith('/') and not name.startswith('/R/')):
+            continue
+        # outside /R/{w,e,e2} nothing is written: keep `..` from climbing out of the scratch tree
+        depth = 0
+        ok = True
+        for sg in (name[3:] if name.startswith('/R/') else 'w/pipelines/' + name).split('/'):
+            depth += -1 if sg == '..' else (0 if sg in ('', '.') else 1)
+            ok = ok and depth >= 1
+        if ok:
+            return name
+
+
+def name_case_random(rng):
+    name = random_name(rng)
+    if name.startswith('/'):
+        via, parent, vroot = rng.choice(NAME_ABS_VIAS)
+        true = ['abs'] if rng.random() < 0.6 else []
+        dec = [d for d in ['abs', 'w', 'w/pipelines'] if rng.random() < 0.5]
+    else:
+        via, parent, vroot = rng.choice(NAME_VIAS)
+        locs = name_locs(name, name_parent_dir(via, parent, vroot))
+        true = [d for d in locs if rng.random() < 0.4]
+        dec = [d for d in locs if rng.random() < 0.6]
+    last = [x for x in name.split('/') if x not in ('', '.')][-1]
+    pick = [d for d in name_decoy_lasts(last) if rng.random() < 0.6]
+    return make_name_case(name, via, parent, vroot, true, dec, form=rng.choice(['str', 'path']), decoy_pick=pick)
+
+
+def run_names_chunk(chunk, repo):
+    root = Path(tempfile.mkdtemp(prefix='c19n')).resolve()
+    try:
+        for d in ('w/pipelines', 'e', 'e2', 'lib'):
+            (root / d).mkdir(parents=True)
+        (root / 'lib' / 'vtrail.py').write_text('T = []\n')
+        (root / 'lib' / 'vcustomstep.py').write_text(
+            "import vtrail\n\ndef run_step(context):\n    vtrail.T.append(context['vfile'])\n")
+        sc = {'kind': 'names', 'root': str(root),
+              'cases': [dict(c, name=conc(root, c['name']), parent=conc(root, c['parent']),
+                             probe_parent=conc(root, name_parent_dir(c['via'], c['parent'], c['vroot']))) for c in chunk]}
+        out = run_subprocess(root, sc, repo, timeout=300)
+        if out.get('timeout'):
+            probe = run_subprocess(root, dict(sc, cases=[]), repo)
+            if probe.get('timeout'):
+                raise common.Infra('C19 runner does not even start within the time limit')
+            out = dict(probe, results=[])
+            for one in sc['cases']:
+                o1 = run_subprocess(root, dict(sc, cases=[one]), repo, timeout=60)
+                out['results'].append({'err': 'timeout', 'msg': 'the look-up did not return within 60 s', 'ran': [], 'probe': None}
+                                      if o1.get('timeout') else o1['results'][0])
+        canon = Canon(root, out['builtin'])
+        if canon(out['config_cwd']) != CWD:
+            raise common.Infra(f'runner cwd is {out["config_cwd"]}')
+        res = []
+        for c, r in zip(chunk, out['results']):
+            pr = r.get('probe')
+            if pr:
+                pr = dict(pr, cands=[[k, isf, canon(real)] for k, isf, real in pr['cands']])
+                if 'parent' in pr:
+                    pr['parent'] = dict(pr['parent'], real=canon(pr['parent']['real']))
+            impl = {'err': r.get('err'), 'msg': canon(r.get('msg')), 'ran': r.get('ran')}
+            if 'ok' in r:
+                impl['ok'] = canon(r['ok'])
+            res.append((c, pr, impl))
+        return res, out['pypyr_file']
+    finally:
+        shutil.rmtree(root, ignore_errors=True)
+
+
+def judge_name_case(env, res, c, probe, impl):
+    """Monitor from the property text: "a pipeline name resolves to the first existing <name>.yaml in this order:
+    absolute path (and nowhere else), directory of the calling parent pipeline, working directory, its pipelines
+    sub-directory, built-ins; when none exists a pipeline-not-found error lists the places searched". The candidates
+    are `dir + '/' + name + '.yaml'` — plain string append — and whether they exist was asked of the OS in the
+    subprocess (`probe`); neither the model nor pypyr take part in the expectation."""
+    res.case(c)
+    name, via = c['name'], c['via']
+    last = [x for x in name.split('/') if x not in ('', '.')][-1]
+    res.count('names:via-' + via + ('-child' if via == 'pype' else ''))
+    res.count('names:' + ('abs' if name.startswith('/') else 'nested' if '/' in name.strip('/') else 'plain'))
+    if '.' in last.strip('.') or last.startswith('.') or last.endswith('.'):
+        res.count('names:dot-in-last-component')
+    if any(sg in ('', '.', '..') for sg in name.split('/')[(1 if name.startswith('/') else 0):]):
+        res.count('names:raw-segments(empty/./..)')
+    if not name.isascii():
+        res.count('names:non-ascii')
+    if ' ' in name:
+        res.count('names:with-space')
+    decoys = [f for f in c['files'] if not f.endswith('/' + last + '.yaml')]
+    if decoys:
+        res.count('names:with-decoy-files')
+    pdir = name_parent_dir(via, c['parent'], c['vroot'])
+    sig = {'clause': 'resolve_first_existing', 'names': 'arbitrary-string', 'form': 'abs' if name.startswith('/') else 'rel'}
+    if impl.get('err') == 'timeout' or probe is None:
+        res.violation(c, f'the look-up of {name!r} did not return', signature=dict(sig, clause='returns'), impl=impl)
+        return
+    # ---- expectation -----------------------------------------------------------------------------------------
+    if probe['abs']:
+        searched = None
+        cands = probe['cands']
+    else:
+        keys = ['cwd', 'sub', 'builtin']
+        if pdir and probe['parent']['exists'] and not probe['parent']['is_cwd']:
+            keys = ['parent'] + keys
+        by = {k: (isf, real) for k, isf, real in probe['cands']}
+        cands = [[k, by[k][0], by[k][1]] for k in keys]
+        searched = [{'parent': probe.get('parent', {}).get('real'), 'cwd': CWD, 'sub': CWD + '/pipelines', 'builtin': '/B'}[k]
+                    for k in keys]
+    want = next((real for _, isf, real in cands if isf), None)
+    res.count('names:' + ('found' if want else 'not-found'))
+    got_file = impl.get('ok') if via == 'path' else (('/R/' + impl['ran'][-1]) if impl.get('ran') else None)
+    if want:
+        wrong = None
+        if impl.get('err'):
+            wrong = f'{impl["err"]}: {impl["msg"]}'
+        elif want.startswith('/B/'):
+            wrong = None if (via == 'path' and got_file == want) or (via != 'path' and not impl['ran']) else f'ran {impl["ran"]}'
+        elif got_file != want or (via != 'path' and impl['ran'] != [want[3:]]):
+            wrong = f'{"resolved to" if via == "path" else "the pipeline(s) that ran:"} {impl.get("ok") if via == "path" else impl["ran"]}'
+        if wrong:
+            other = got_file and got_file != want
+            res.violation(c, f'name {name!r} (via {via}, parent {pdir}): the first existing <name>.yaml is {want}, but {wrong}'
+                             + (' — ANOTHER pipeline file was taken' if other else ''),
+                          signature=dict(sig, outcome='other-file' if other else 'not-found-although-exists'), impl=impl)
+    else:
+        if impl.get('err') != 'PipelineNotFoundError':
+            res.violation(c, f'{name!r}: no <name>.yaml exists in the search order, yet: {impl}',
+                          signature=dict(sig, outcome='found-although-absent'), impl=impl)
+        else:
+            msg = impl['msg'] or ''
+            requested = name + '.yaml'
+            from pathlib import PurePosixPath
+            named = requested in msg or (probe['abs'] and str(PurePosixPath(requested)) in msg)
+            if not named:
+                res.violation(c, f'not-found error does not name the requested file {requested!r}: {msg!r}',
+                              signature=dict(sig, clause='not_found_names_requested_file'), impl=impl)
+            elif searched is not None and not judge_not_found(msg, name, searched):
+                res.violation(c, f'not-found error does not list the searched places {searched}: {msg!r}',
+                              signature=dict(sig, clause='not_found_lists_searched'), impl=impl)
+    # ---- the model: Resolve.getPipelinePathNR on the same tree -----------------------------------------------
+    files = sorted({'/R/' + f for f in c['files']} | ({'/R/' + c['vroot']} if c['vroot'] else set()) |
+                   {f'/B/{n}.yaml' for n in BUILTIN_NAMES})
+    dirs = {'/B', '/R', '/R/w', '/R/w/pipelines', '/R/e', '/R/e2', '/R/lib'}
+    for f in list(files) + ['/R/' + m + '/x' for m in c['mkdirs']]:
+        parts = f.split('/')[1:-1]
+        for k in range(1, len(parts) + 1):
+            dirs.add('/' + '/'.join(parts[:k]))
+    model = env.driver.ask('resolve.name', name=name, parent=pdir, cwd=CWD, builtin='/B', files=files, dirs=sorted(dirs),
+                           links=[])
+    if 'ok' in model:
+        m = {'file': model['ok'], 'err': None, 'msg': None}
+    else:
+        m = {'file': None, 'err': 'PipelineNotFoundError', 'msg': model['err']}
+    i = {'file': got_file if not impl.get('err') else None, 'err': impl.get('err'),
+         'msg': impl.get('msg') if impl.get('err') else None}
+    if m['file'] and m['file'].startswith('/B/') and via != 'path':
+        m['file'] = None       # a built-in pipeline leaves no marker
+    if m != i:
+        res.mismatch(c, m, i)
+
+
 def cli_dir_default(repo):
     """pypyr/cli.py: the `default=` of the --dir / py_dir argument, as source text"""
     import ast
@@ -1501,7 +1857,14 @@ def run(env, res):
                 'pipelinerunner.run and a real pype step; with file-system changes, clear_all and no_cache in between): all ordered '
                 'pairs of requests whose first candidates coincide under path joining, one object run with changing parents, '
                 'all ordered pairs of requests on 3 layouts (thorough: all; quick: slice), random; each look-up compared with '
-                'its cold-process result. every case in a fresh subprocess with its own cwd. non-trivial = distinct (hops, options, layout)')
+                'its cold-process result. names: pipeline NAMES as arbitrary strings (dots in the last component - one, several, '
+                'leading, trailing -, a name ending in .yaml / .yml already, spaces, unicode, `..` / `.` / empty segments, trailing '
+                'slash; plain, dir/name, dotted directory, absolute) x 7 ways of asking (get_pipeline_path with / without parent, '
+                'pipelinerunner.run, the command line, a pype child whose parent lives elsewhere / in the cwd / in cwd/pipelines) x every '
+                'subset of the search places holding <name>.yaml x decoy files (truncated stems, the bare name, .yml, other case) in '
+                'none / the earlier / all search places, every file a pipeline recording its own path (thorough: all; quick: core + '
+                'seeded slice) + random names over an alphabet with . space - _ digits non-ascii. '
+                'every case in a fresh subprocess with its own cwd. non-trivial = distinct (hops, options, layout)')
     workers = min(14, os.cpu_count() or 2)
     pcs = path_cases()
     chunks = [pcs[i::workers] for i in range(workers)]
@@ -1520,11 +1883,15 @@ def run(env, res):
     res.extra['sequences'] = len(seqs)
     subs = subdir_cases(env.rng, env.quick)
     res.extra['subdir_scenarios'] = len(subs)
+    ncs = name_cases_directed(env.rng, env.quick) + [name_case_random(env.rng) for _ in range(env.n(250, 3000))]
+    res.extra['name_cases'] = len(ncs)
+    nchunks = [ncs[i::workers * 2] for i in range(workers * 2)]
     with ThreadPoolExecutor(max_workers=workers) as pool:
         pfut = [pool.submit(run_path_chunk, ch, repo) for ch in chunks if ch]
         rfut = [pool.submit(run_run_case, c, repo) for c in runs]
         sfut = [pool.submit(run_seq_case, c, repo) for c in seqs]
         dfut = [pool.submit(run_subdir_case, c, repo) for c in subs]
+        nfut = [pool.submit(run_names_chunk, ch, repo) for ch in nchunks if ch]
         for fu in pfut:
             results, pypyr_file = fu.result()
             if not str(pypyr_file).startswith(str(repo)):
@@ -1537,6 +1904,12 @@ def run(env, res):
             judge_seq_case(env, res, *fu.result())
         for fu in dfut:
             judge_subdir_case(env, res, *fu.result())
+        for fu in nfut:
+            results, pypyr_file = fu.result()
+            if not str(pypyr_file).startswith(str(repo)):
+                raise common.Infra(f'runner imported pypyr from {pypyr_file}, not from {repo}')
+            for c, probe, impl in results:
+                judge_name_case(env, res, c, probe, impl)
     static_subdir_tie(res, repo)
 
 
@@ -1548,6 +1921,11 @@ def replay(env, res, payload):
         results, _ = run_path_chunk([case], common.REPO)
         for c, files, dirs, impl in results:
             judge_path_case(env, res, c, files, dirs, impl)
+            res.extra['replayed'] = impl
+    elif case.get('kind') == 'names':
+        results, _ = run_names_chunk([case], common.REPO)
+        for c, probe, impl in results:
+            judge_name_case(env, res, c, probe, impl)
             res.extra['replayed'] = impl
     elif case.get('kind') == 'subdir':
         c, files, dirs, impl = run_subdir_case(case, common.REPO)
